@@ -183,6 +183,8 @@ impl<'a> LexicographicIterator for SortedVecLexIterator<'a> {
 pub struct StreamingLexIterator<R: std::io::Read> {
     reader: std::io::BufReader<R>,
     current_line: String,
+    /// Whether `current_line` holds a line that was read (it may be the empty string)
+    has_current: bool,
     buffer: Vec<u8>,
     finished: bool,
     line_number: usize,
@@ -196,6 +198,7 @@ impl<R: std::io::Read> StreamingLexIterator<R> {
         Self {
             reader: std::io::BufReader::new(reader),
             current_line: String::new(),
+            has_current: false,
             buffer: Vec::with_capacity(8192), // 8KB initial buffer
             finished: false,
             line_number: 0,
@@ -207,12 +210,14 @@ impl<R: std::io::Read> StreamingLexIterator<R> {
         use std::io::BufRead;
 
         self.current_line.clear();
+        self.has_current = false;
         match self.reader.read_line(&mut self.current_line) {
             Ok(0) => {
                 self.finished = true;
                 Ok(false)
             }
             Ok(_) => {
+                self.has_current = true;
                 // Remove trailing newline
                 if self.current_line.ends_with('\n') {
                     self.current_line.pop();
@@ -232,7 +237,7 @@ impl<R: std::io::Read> LexicographicIterator for StreamingLexIterator<R> {
     type Error = ZiporaError;
 
     fn current(&self) -> Option<&str> {
-        if self.finished || self.current_line.is_empty() {
+        if self.finished || !self.has_current {
             None
         } else {
             Some(&self.current_line)
